@@ -77,8 +77,10 @@ class _PokTranslator(_util.OverrideableDataDesc):
         self.kwoarg_names |= other.kwoarg_names
 
         from sigtools import wrappers
+        # re-apply in decoration order: what start= and end= select depends
+        # on what the inner translator has already converted
         self.custom_getter = wrappers.Combination(
-            self.custom_getter, other.custom_getter)
+            other.custom_getter, self.custom_getter)
 
     def _prepare(self):
         intersection = self.posoarg_names & self.kwoarg_names
